@@ -380,6 +380,12 @@ func runC05(c *Ctx) {
 			planAcrossCounterWrap(c, i)
 		}
 	}
+	// requests in flight on a connection the proxy closes itself (idle timeout, host removed): the idempotent ones fail over
+	for i := 0; i < c.Pick(4, 120); i++ {
+		if c.Mine(i+5) && c.Replay == nil {
+			proxyClosesConn(c, 2000+i, []string{"idle-timeout", "host-removed"}[i%2])
+		}
+	}
 	for i := 0; i < c.Pick(8, 480); i++ {
 		if c.Mine(i+1) || c.Replay != nil {
 			partialPool(c, i, 2+i%2)
